@@ -110,9 +110,9 @@ func c19(c *Ctx) {
 				var noName []cfgx.Edge
 				for _, b := range fn.Blocks {
 					for _, in := range b.Instrs {
-						if bo, ok := in.(*ssa.BinOp); ok && bo.Op == token.EQL {
+						if bo, ok := in.(*ssa.BinOp); ok && isEqOrNeq(bo) {
 							if _, p, okp := flow.AccessPathC(bo.X); okp && p == "Spec.Of.ResourceRef" && cfgx.IsNilConst(bo.Y) {
-								t, _ := cfgx.CondEdges(bo)
+								t, _ := eqEdges(bo)
 								noName = append(noName, t...)
 							}
 						}
@@ -358,9 +358,9 @@ func c19(c *Ctx) {
 		var del []cfgx.Edge
 		for _, b := range h.Blocks {
 			for _, in := range b.Instrs {
-				if bo, ok := in.(*ssa.BinOp); ok && bo.Op == token.EQL {
+				if bo, ok := in.(*ssa.BinOp); ok && isEqOrNeq(bo) {
 					if s, isC := cfgx.ConstString(bo.Y); isC && s == "DELETE" {
-						t, _ := cfgx.CondEdges(bo)
+						t, _ := eqEdges(bo)
 						del = append(del, t...)
 					}
 				}
